@@ -81,7 +81,8 @@ Proof.
   assert (Hsk : forall n, Z.of_nat (length (skipn n l)) <= max_int64).
   { intros n. rewrite skipn_length. lia. }
   assert (Hoff : Z.to_nat (paging_offset skip) = match skip with Some s => Z.to_nat s | None => O end).
-  { destruct skip; reflexivity. }
+  { destruct skip as [s|]; [|reflexivity]. unfold paging_offset. destruct (s <? 0) eqn:Hs; [|reflexivity].
+    apply Z.ltb_lt in Hs. destruct s; try reflexivity; lia. }
   rewrite Hoff.
   destruct limit as [n|]; unfold paging_limit.
   - destruct (n <? 0).
